@@ -36,6 +36,7 @@ Norm(d) ==
     [] d[1] = "ptrstruct" -> <<"other", "ptrstruct">>
     [] d[1] = "slice" -> Arr([i \in 1..Len(d[2]) |-> Norm(d[2][i])])
     \* the elements of a typed Go slice stay raw Go values until something converts them: <<"goint", n>>
+    [] d[1] = "tmapstr" -> <<"map", [k \in DOMAIN d[2] |-> Str(d[2][k])], "map[string]string">>
     [] d[1] = "ints" -> <<"arr", [i \in 1..Len(d[2]) |-> <<"goint", d[2][i]>>], "[]int">>
     [] d[1] = "strs" -> <<"arr", [i \in 1..Len(d[2]) |-> Str(d[2][i])], "strs">>
     [] d[1] = "time" -> d
